@@ -16,7 +16,8 @@ Definition P64 : N := 18446744073709551616.   (* 2^64 *)
 Definition P63 : N := 9223372036854775808.    (* 2^63 *)
 Definition P32 : N := 4294967296.             (* 2^32 *)
 
-(* panic sites: the number is the source line *)
+(* conversion sites (line numbers of the source BEFORE commit 99f406a; since that commit none of them can panic:
+   an overflow is a parse error, see [conv_bits]); kept as labels of the numeric arguments *)
 Definition SITE_EXPR_INT   : N := 49.   (* expression.rs:49  text::int(10).from_str::<u64>().unwrapped() *)
 Definition SITE_EXPR_NEG   : N := 52.   (* expression.rs:52  -(val as i64)   (debug profile only) *)
 Definition SITE_EXPR_USIZE : N := 161.  (* expression.rs:161 v.parse::<usize>().unwrap() *)
@@ -30,16 +31,17 @@ Definition SITE_FRAME      : N := 474.  (* parser/mod.rs:474 frame switch N   u3
 Definition SITE_TRIG_B     : N := 532.  (* parser/mod.rs:532 trigger b N      u32 *)
 Definition SITE_TRIG_W     : N := 541.  (* parser/mod.rs:541 trigger w N      u32 *)
 
-(* str::parse::<uN>() of a digit string whose value is [n], then unwrap *)
+(* str::parse::<uN>() of a digit string whose value is [n]; after fix_1 an overflow is reported as a
+   parse error (the command line / expression is rejected) instead of `unwrap()` panicking *)
 Definition conv_bits (bound : N) (site : N) (n : N) : res N :=
-  if n <? bound then Ok n else Panic site.
+  if n <? bound then Ok n else Err 0.
 Definition conv_u64 := conv_bits P64.
 Definition conv_u32 := conv_bits P32.
 
 (* `val as i64` *)
 Definition as_i64 (n : N) : Z := if n <? P63 then Z.of_N n else (Z.of_N n - Z.of_N P64)%Z.
-(* `-(x)` on i64, overflow-checked *)
-Definition neg_i64 (z : Z) : res Z := if (z =? - Z.of_N P63)%Z then Panic SITE_EXPR_NEG else Ok (- z)%Z.
+(* `x.wrapping_neg()` on i64 (fix_1): -i64::MIN = i64::MIN, so `-9223372036854775808` means i64::MIN in every profile *)
+Definition neg_i64 (z : Z) : res Z := if (z =? - Z.of_N P63)%Z then Ok z else Ok (- z)%Z.
 
 (* expression.rs:47-56, the `int` alternative *)
 Definition int_literal (neg : bool) (n : N) : res Z :=
@@ -202,7 +204,13 @@ Definition print_post (e1 : dqe) : list token :=
 (* ------------------------------------------------------------------------------------------------ *)
 (** * 4. The parser (recursive descent mirroring the chumsky combinators)
     [Err 0] = this alternative does not match (chumsky rewinds and tries the next one);
-    [Panic site] aborts the whole parse (an unwrap inside a `map` closure, run in Emit mode);
+    [Panic site] would abort the whole parse; since commit 99f406a no combinator of the grammar can produce it
+    (the propagation branches are kept so that this is a theorem, ProofsDqe.parse_no_panic, not a convention).
+    A number that does not fit its type: the real `validate` closure records an error and lets the alternative
+    go on with the value 0, so the whole input is rejected unless the alternative later fails and is rewound (which
+    drops the recorded error).  The model fails the alternative at once ([Err 0]); in every DQE context the
+    alternatives tried afterwards cannot consume the number token either, so both reject the input
+    (checked by the correspondence leg on the malformed stream);
     [OutOfFuel] only if the fuel given is too small (it never is in [parse], see ProofsDqe). *)
 
 Definition orelse {A} (r k : res A) : res A := match r with Err _ => k | _ => r end.
@@ -223,11 +231,11 @@ Definition parse_path (ts : list token) : option (path * list token) :=
 
 (* the fraction is text::int(10): "05" is read as "0" and the "5" is left in the input, after which
    every enclosing DQE context fails; a literal that ends inside a token is therefore a dead end *)
+(* fix_4: the fraction is any non-empty digit string *)
 Definition float_ok (fd : list N) : bool :=
   match fd with
   | [] => false
-  | [_] => true
-  | d :: _ => negb (d =? 0)
+  | _ :: _ => true
   end.
 
 (* just("true") / just("false") match a PREFIX of an identifier and the choice is committed *)
@@ -323,7 +331,7 @@ Fixpoint parse_lit (f : nat) (ts : list token) {struct f} : res (lit * list toke
       | TId s :: r =>
           if bstr_eqb s s_true then Ok (LBool true, r)
           else if bstr_eqb s s_false then Ok (LBool false, r)
-          else if bool_prefixed s then Err 0
+          (* fix_3: `true` / `false` are keywords only as whole identifiers *)
           else enum_lit (parse_lit f') ts
       | THex n :: r => v <- conv_u64 SITE_HEX n ;; Ok (LAddr v, r)
       | TInt n :: r => z <- int_literal false n ;; Ok (LInt z, r)
@@ -752,17 +760,13 @@ Definition spec_slice_opt (items : list vtree) (left right : option N) : res (li
   Ok (spec_slice items (match left with Some l => l | None => 0 end)
                        (match right with Some r => r | None => N.of_nat (length items) end)).
 
-(* ArrayValue::slice, value/mod.rs:217-230 *)
+(* ArrayValue::slice after fix_2: left is clamped to the length, `right - left` saturates at 0 *)
 Definition array_slice (items : list vtree) (left right : option N) : res (list vtree) :=
-  items1 <- match left with
-            | Some l => if l <=? N.of_nat (length items) then Ok (skipn (N.to_nat l) items) else Panic SITE_DRAIN
-            | None => Ok items
-            end ;;
+  let l := N.min (match left with Some l => l | None => 0 end) (N.of_nat (length items)) in
+  let items1 := skipn (N.to_nat l) items in
   match right with
   | Some r =>
-      let l := match left with Some l => l | None => 0 end in
-      if r <? l then Panic SITE_SLICE_SUB
-      else if r - l <? N.of_nat (length items1) then Ok (firstn (N.to_nat (r - l)) items1) else Ok items1
+      if r - l <? N.of_nat (length items1) then Ok (firstn (N.to_nat (r - l)) items1) else Ok items1
   | None => Ok items1
   end.
 
@@ -778,8 +782,9 @@ Definition v_slice (v : vtree) (left right : option N) : res (option vtree) :=
       match right, ty_size t with
       | Some r, Some sz =>
           let l := match left with Some l => l | None => 0 end in
-          if P64 <=? p + sz * l then Panic SITE_PTR_ADD
-          else if r <? l then Panic SITE_PTR_SUB
+          (* fix_2: checked address arithmetic (overflow = no result), `right - left` saturates at 0 *)
+          (* a zero-sized pointee has nothing to slice (value/mod.rs: `if deref_size == 0 { return None }`) *)
+          if (sz =? 0) || (P64 <=? p + sz * l) || (P64 <=? sz * (r - l)) then Ok None
           else match mem_items (p + sz * l) t (r - l) with
                | Some its => Ok (Some (VArray (mk_meta (Some (p + sz * l)) None) (Some its)))
                | None => Ok None
@@ -1035,7 +1040,7 @@ Definition eo_eqb (a b : eval_outcome) : bool :=
   end.
 Definition dqe_eval_check (c : dqe_eval_case) : N :=
   verdict (eo_eqb (eo_of (case_eval false c)) (ec_impl c))
-          (eo_eqb (eo_of (case_eval true c)) (ec_impl c)).
+          (negb (eo_eqb (ec_impl c) EO_panic) && eo_eqb (eo_of (case_eval true c)) (ec_impl c)).
 
 (* (c) numeric arguments of console commands: did the real command parser panic on the digits of [n]? *)
 Record num_case := mk_num_case { nc_kind : num_arg; nc_value : N; nc_impl_panicked : bool }.
